@@ -128,11 +128,18 @@ func checkLinks(c ugen.Case) error {
 	}
 	ev.LabelIf(uerr == nil, "unpack-ok")
 	ev.LabelIf(uerr != nil, "unpack-error")
+	return auditLinks(a, allowPrefixes(c, a), fmt.Sprintf("after Unpack (returned %v)", uerr), nil, 0)
+}
+
+// auditLinks follows every link under dst the way the kernel does. born, when
+// given, maps a link (relative to dst) to the number of the Unpack call that
+// created it: a link left by an earlier call that only now leads outside is the
+// known finding c04-links-across-unpack-calls; a link of the current call is not.
+func auditLinks(a *ugen.Arena, allow []string, when string, born map[string]int, current int) error {
 	links, err := walkLinks(a.Dst)
 	if err != nil {
 		return fmt.Errorf("harness: walk: %v", err)
 	}
-	allow := allowPrefixes(c, a)
 	ev.LabelIf(len(links) > 0, "links-left-in-dst")
 	for _, l := range links {
 		linkPath := filepath.Join(a.Dst, l.rel)
@@ -163,9 +170,72 @@ func checkLinks(c ugen.Case) error {
 			ev.Excluded("c04-link-via-link")
 			continue
 		}
-		return fmt.Errorf("after Unpack (returned %v) the link %q -> %q resolves to %q, outside dst %q", uerr, l.rel, l.target, res, a.Dst)
+		if born != nil && born[l.rel] != current && ev.IsKnown("c04-links-across-unpack-calls") {
+			// left by an earlier call, made to lead outside by what this call created
+			ev.Excluded("c04-links-across-unpack-calls")
+			continue
+		}
+		return fmt.Errorf("%s the link %q -> %q resolves to %q, outside dst %q", when, l.rel, l.target, res, a.Dst)
 	}
 	return nil
+}
+
+// ---------------------------------------------------------------------------
+// several Unpack calls into the same destination
+
+var subSequence = ev.Register("sequence", checkSequence)
+
+func checkSequence(s ugen.SeqCase) error {
+	a, err := ugen.NewArena(s.First)
+	if err != nil {
+		return fmt.Errorf("harness: arena: %v", err)
+	}
+	defer a.Close()
+	born := map[string]int{}
+	targets := map[string]string{}
+	var allow []string
+	for i := 0; i <= len(s.More); i++ {
+		c := s.AsCase(i)
+		if i > 0 && s.More[i-1].Wipe {
+			a.Wipe()
+			born, targets = map[string]int{}, map[string]string{}
+		}
+		uerr, panicked := unpack(c, a)
+		if str, ok := panicked.(string); ok && strings.HasPrefix(str, "harness-") {
+			ev.Label("archive-not-buildable")
+			return nil
+		}
+		if panicked != nil {
+			return fmt.Errorf("Unpack number %d panicked: %v", i+1, panicked)
+		}
+		links, err := walkLinks(a.Dst)
+		if err != nil {
+			return fmt.Errorf("harness: walk: %v", err)
+		}
+		seen := map[string]bool{}
+		for _, l := range links {
+			seen[l.rel] = true
+			if old, ok := targets[l.rel]; !ok || old != l.target {
+				born[l.rel], targets[l.rel] = i, l.target
+			}
+		}
+		for rel := range targets {
+			if !seen[rel] {
+				delete(targets, rel)
+				delete(born, rel)
+			}
+		}
+		allow = append(allow, allowPrefixes(c, a)...)
+		if err := auditLinks(a, allow, fmt.Sprintf("after Unpack number %d into the same destination (returned %v)", i+1, uerr), born, i); err != nil {
+			return err
+		}
+	}
+	ev.NonTrivial(s, "several-unpacks-one-destination")
+	return nil
+}
+
+func TestPropSequence(t *testing.T) {
+	ev.Check(t, subSequence, ugen.GenSeq)
 }
 
 // RejectCase: a benign archive with exactly one offending link entry.
